@@ -101,7 +101,8 @@ def obligations(tier, kf):
         obs.append(Ob('f_filter', dict(f, M=3, E=1 if q else 2), 1200, desc='filter #%d' % i))
     obs.append(Ob('f_filter', dict(FILTERS[0], M=2, E=1), 120).twin())
     for i, f in enumerate(WALKS):
-        obs.append(Ob('w_walk', dict(f, nodes=6 if q else 7), 1500, desc='walk, filter #%d' % i))
+        obs.append(Ob('w_walk', dict(f, nodes=7 if (not q or 'yname' in f) else 6), 1500,
+                      desc='walk, filter #%d' % i))
     obs.append(Ob('w_walk', dict(WALKS[0], nodes=5), 120).twin())
     # sensitivity twins
     obs.append(Ob('g_prune', {'pattern': 'a/**/b', 'M': 3, 'E': 2}, 300).mutant('glob_never_too_early'))
